@@ -35,7 +35,7 @@ ASSUMPTIONS = [
 RULE = ("case = (loop kind, 1..2 locks, 0..2 events, 2..5 workers of kind PriorityTask / Python task / plain "
         "Task with scripts over {acquire k (async with), release, sleep(0), wait event}, environment actions "
         "cancel/task_throw/task_interrupt/set placed by handle count); corpus first, then random; thorough adds "
-        "a bounded-exhaustive sweep of fault placements for small worker sets.  Non-trivial = the run itself "
+        "a bounded-exhaustive sweep of fault placements for small worker sets; a few % of the cases are directed: long waiter queues (9..12 / 17..25 waiters) with arrivals and cancels around a release, a user priority() that raises once inside acquire, duck-typed task classes, eagerly started acquires (oracles only).  Non-trivial = the run itself "
         "reached at least one of: fault delivered while waiting / woken-not-run / holding, a refused throw, a "
         "hand-over caused by a waiter giving up, a contended hand-over.  distinct = hash of the canonical case")
 
@@ -49,6 +49,8 @@ KINDS = {
     "holding-mismatch": "_holding_locks / _waiting_on equal the locks the task is inside / waits for",
     "bad-release": "release() by a task that does not hold the lock is refused and changes nothing",
     "dead-entry": "every entry of a lock's wait queue belongs to a task that is suspended in that acquire()",
+    "double-wakeup": "at most one waiter of a lock has been woken and not yet run",
+    "owner-mismatch": "the task a lock records as its holder is the task that acquired it and is inside",
 }
 THEOREM = {
     "mutual-exclusion": "Asynkit.C13.mutual_exclusion",
@@ -59,10 +61,14 @@ THEOREM = {
     "holding-mismatch": "Asynkit.C13.holding_waiting_consistent",
     "bad-release": "Asynkit.C13.refused_release_changes_nothing",
     "dead-entry": "Asynkit.C13.holding_waiting_consistent",
+    "double-wakeup": "Asynkit.C13.lock_inv",
+    "owner-mismatch": "Asynkit.C13.owner_iff_owns",
 }
 NONTRIVIAL = {"fault-while-waiting", "fault-woken-not-run", "fault-while-holding", "throw-refused",
               "handover-by-giveup", "handover-contended", "release-by-non-holder-while-held",
-              "ready-entry-made-positional-woken-lock-waiter", "acquire-raises-on-lock-order-cycle"}
+              "ready-entry-made-positional-woken-lock-waiter", "acquire-raises-on-lock-order-cycle",
+              "acquire-raises-from-user-priority-callback", "long-queue-with-wakeup-in-flight",
+              "contended-acquire-started-eagerly", "duck-typed-priority-task"}
 
 
 def exhaustive(maxn):
@@ -95,6 +101,14 @@ def run(ctx):
     n = 30000 if ctx.thorough() else 3000
     def one():
         g = rng.random()
+        if g < 0.03:
+            return S.gen_crowd_inflight_case(rng)
+        if g < 0.05:
+            return S.gen_raising_callback_case(rng)
+        if g < 0.07:
+            return S.gen_duck_case(rng)
+        if g < 0.09:
+            return S.gen_eager_case(rng)
         if g < 0.55:
             return S.gen_case(rng, "C13")
         if g < 0.90:
